@@ -31,6 +31,61 @@ func lineNodes(n refcodec.Node, out *[]refcodec.Node) {
 	}
 }
 
+// lineNodesMeta flattens like lineNodes and records, for every hole, the index of its polygon's
+// exterior ring in the flattened list (-1 for exterior rings and plain lines).
+func lineNodesMeta(n refcodec.Node, out *[]refcodec.Node, ext *[]int) {
+	switch n.T {
+	case geom.TypeLineString:
+		*out = append(*out, n)
+		*ext = append(*ext, -1)
+	case geom.TypePolygon:
+		e := len(*out)
+		for i, k := range n.Kids {
+			*out = append(*out, k)
+			if i == 0 {
+				*ext = append(*ext, -1)
+			} else {
+				*ext = append(*ext, e)
+			}
+		}
+	default:
+		for _, k := range n.Kids {
+			lineNodesMeta(k, out, ext)
+		}
+	}
+}
+
+// canVanish: a line may be absent from the simplified result only if it is closed and some collapsed
+// subsequence of it (p0,p0 or p0,pk,p0) drops no vertex farther than t from the line through the
+// retained vertices that bracket it.
+func canVanish(in [][]float64, t float64) bool {
+	n := len(in)
+	if n < 2 {
+		return true
+	}
+	if in[0][0] != in[n-1][0] || in[0][1] != in[n-1][1] {
+		return false
+	}
+	within := func(a, b exact.Pt) bool {
+		for m := 1; m < n-1; m++ {
+			if d := distToLine(ptOf(in[m]), a, b); d > t*(1+1e-12)+1e-14*math.Max(math.Abs(in[m][0]), math.Abs(in[m][1]))+1e-300 {
+				return false
+			}
+		}
+		return true
+	}
+	p0 := ptOf(in[0])
+	if within(p0, p0) {
+		return true
+	}
+	for k := 1; k < n-1; k++ {
+		if pk := ptOf(in[k]); !pk.Eq(p0) && within(p0, pk) {
+			return true
+		}
+	}
+	return false
+}
+
 func ptOf(c []float64) exact.Pt { return exact.PF(c[0], c[1]) }
 
 func sameTuple(a, b []float64) bool {
@@ -143,9 +198,23 @@ func c17Simplify(r *engine.Run, g geom.Geometry, t float64) {
 		return
 	}
 	var a, b []refcodec.Node
-	lineNodes(gn, &a)
+	var ext []int
+	lineNodesMeta(gn, &a, &ext)
 	lineNodes(hn, &b)
-	// every output line is a subsequence (same ends) of some input line, in order; lines may collapse to nothing
+	// every output line is a subsequence (same ends) of some input line, in order; lines may collapse to
+	// nothing, but only when the threshold allows it (checked below for every input line left unmatched)
+	matchedIn := make([]bool, len(a))
+	defer func() {
+		for i := range a {
+			if matchedIn[i] || len(a[i].Coords) == 0 || (ext[i] >= 0 && !matchedIn[ext[i]]) {
+				continue // kept, empty already, or a hole of a polygon whose shell collapsed
+			}
+			if !canVanish(a[i].Coords, t) {
+				bad("lineVanished", fmt.Sprintf("input line/ring #%d %v is absent from the result although it cannot collapse at threshold %g; result %s", i, a[i].Coords, t, h.AsText()))
+				return
+			}
+		}
+	}()
 	ai := 0
 	for _, out := range b {
 		if len(out.Coords) == 0 {
@@ -178,6 +247,7 @@ func c17Simplify(r *engine.Run, g geom.Geometry, t float64) {
 			// the last output vertex must be the last input vertex (not an earlier equal one)
 			kept[len(kept)-1] = len(in) - 1
 			matched = true
+			matchedIn[ai] = true
 			for k := 0; k+1 < len(kept); k++ {
 				pa, pb := ptOf(in[kept[k]]), ptOf(in[kept[k+1]])
 				for m := kept[k] + 1; m < kept[k+1]; m++ {
@@ -460,6 +530,46 @@ func c17Orient(r *engine.Run, g geom.Geometry) {
 	if !ccw.IsCCW() {
 		bad("ForceCCW.notIsCCW", ccw.AsText())
 	}
+	// independent of IsCW/IsCCW: the exact signed area of every ring of the forced geometries
+	// (shells clockwise and holes counter-clockwise after ForceCW, the reverse after ForceCCW)
+	exactWinding := func(n refcodec.Node, shellSign int) string {
+		var walk func(n refcodec.Node) string
+		walk = func(n refcodec.Node) string {
+			if n.T == geom.TypePolygon {
+				for i, ring := range n.Kids {
+					var pts []exact.Pt
+					for _, c := range ring.Coords {
+						pts = append(pts, ptOf(c))
+					}
+					a, _, _ := ringMoments(pts)
+					want := shellSign
+					if i > 0 {
+						want = -shellSign
+					}
+					if a.Sign() != want {
+						return fmt.Sprintf("ring %d %v has exact signed area of sign %d, want %d", i, ring.Coords, a.Sign(), want)
+					}
+				}
+				return ""
+			}
+			for _, k := range n.Kids {
+				if n.T == geom.TypeLineString {
+					break
+				}
+				if d := walk(k); d != "" {
+					return d
+				}
+			}
+			return ""
+		}
+		return walk(n)
+	}
+	if d := exactWinding(refcodec.Describe(cw), -1); d != "" {
+		bad("ForceCW.exactWinding", d)
+	}
+	if d := exactWinding(refcodec.Describe(ccw), 1); d != "" {
+		bad("ForceCCW.exactWinding", d)
+	}
 	if d := refcodec.Diff(refcodec.Describe(cw), refcodec.Describe(cw.ForceCW())); d != "" {
 		bad("ForceCW.notIdempotent", d)
 	}
@@ -673,6 +783,52 @@ func c17Main(r *engine.Run) {
 			}
 		}
 	}
+	// several holes of different sizes in every order: at thresholds between their sizes some collapse
+	// and the others must stay (a ring may only vanish when the threshold lets it collapse)
+	{
+		holes := [][]universe.LPt{
+			{{2, 2}, {3, 2}, {2, 3}, {2, 2}},              // collapses from t ≈ 0.71
+			{{10, 2}, {14, 2}, {14, 6}, {10, 6}, {10, 2}}, // from t ≈ 2.83
+			{{2, 10}, {4, 10}, {4, 12}, {2, 12}, {2, 10}}, // from t ≈ 1.41
+			{{10, 10}, {17, 10}, {17, 17}, {10, 17}, {10, 10}},
+		}
+		shell := sq(0, 0, 20, 20)
+		var multi []geom.Geometry
+		var rec func(used []int)
+		rec = func(used []int) {
+			if len(used) >= 2 {
+				rings := [][]universe.LPt{shell}
+				for _, k := range used {
+					rings = append(rings, holes[k])
+				}
+				p := id.Polygon(rings...)
+				multi = append(multi, p.AsGeometry(), geom.NewMultiPolygon([]geom.Polygon{id.Polygon(sq(30, 0, 31, 1)), p}).AsGeometry())
+			}
+			for k := range holes {
+				dup := false
+				for _, u := range used {
+					dup = dup || u == k
+				}
+				if !dup {
+					rec(append(append([]int{}, used...), k))
+				}
+			}
+		}
+		rec(nil)
+		for _, g := range multi {
+			if g.Validate() != nil {
+				panic("c17: multi-hole family member invalid: " + g.AsText())
+			}
+		}
+		r.States.Add(int64(len(multi)))
+		if r.Parallel(len(multi), func(i int) {
+			for _, t := range []float64{0, 0.5, 0.8, 1.2, 1.5, 2, 3, 4, 6, 15} {
+				c17Simplify(r, multi[i], t)
+			}
+		}) {
+			r.Bound(fmt.Sprintf("%d polygons with 2..4 holes of four sizes in every order (alone and as a MultiPolygon member) × 10 thresholds between the sizes: no ring vanishes unless it can collapse", len(multi)))
+		}
+	}
 	r.States.Add(int64(len(fragile)))
 	if r.Parallel(len(fragile), func(i int) {
 		for _, t := range []float64{0, 1, 4.9, 5, 7.5, 9.9, 10, 12, 14.9, 15, 20, 24.9, 25, 30, 60} {
@@ -700,8 +856,16 @@ func c17Main(r *engine.Run) {
 		if !g.IsCW() && !g.IsCCW() {
 			r.Nontrivial(g.AsText())
 		}
+		// small features far from the origin (exact in float64: k/64 + 2^24, k/64 − 2^22, and k/1024
+		// near (1.6e7, −4e6)): ring areas are far below one ulp of x·y, orientation is still exact
+		for _, f := range []func(geom.XY) geom.XY{
+			func(p geom.XY) geom.XY { return geom.XY{X: p.X/64 + 16777216, Y: p.Y/64 - 4194304} },
+			func(p geom.XY) geom.XY { return geom.XY{X: p.X/1024 - 16000000, Y: p.Y/1024 + 4000000} },
+		} {
+			c17Orient(r, g.TransformXY(f))
+		}
 	}) {
-		r.Bound(fmt.Sprintf("%d areal / multi / collection geometries × (Densify × 5, Simplify × 7, Reverse/ForceCW/ForceCCW)", len(areal)))
+		r.Bound(fmt.Sprintf("%d areal / multi / collection geometries × (Densify × 5, Simplify × 7, Reverse/ForceCW/ForceCCW; orientation also on two exact images with features 1e-8 of their distance from the origin)", len(areal)))
 	}
 }
 
